@@ -4,6 +4,7 @@ C17 — Unset options equal their defaults; XOpts equals WithOptions(o).X.
 import RosedVerif.Model.InstAFacts
 import RosedVerif.Model.OptionsLemmas
 import RosedVerif.Gen.Facts
+import RosedVerif.Model.ReceiverOptions
 namespace RosedVerif.Props
 open RosedVerif
 
@@ -107,5 +108,90 @@ theorem C17_counterexample_D10 :
     (({ charset := [0x61, 0x600] } : Options Int).withDefaults cxA).withDefaults cxA ≠
       ({ charset := [0x61, 0x600] } : Options Int).withDefaults cxA := by
   unfold CharsetOK; decide +kernel
+
+/-- `XOpts(args, o)` returns the same text as `WithOptions(o).X(args)` (X delegates to XOpts with the Editor's own Options — regenerated fact `C17_delegation`): the Options stored on the receiver play no role, any context, any editor (sub-editors included), errors included -/
+theorem C17_withOptions_wrap {α : Type} [DecidableEq α] (cx : Ctx α) (ed : Editor α)
+    (width : Int)
+    (o : Options α) :
+    ((ed.withOpts o).wrapOpts cx width o).map Editor.text = (ed.wrapOpts cx width o).map Editor.text :=
+  wrapOpts_text cx ed width o
+
+/-- `XOpts(args, o)` returns the same text as `WithOptions(o).X(args)` (X delegates to XOpts with the Editor's own Options — regenerated fact `C17_delegation`): the Options stored on the receiver play no role, any context, any editor (sub-editors included), errors included -/
+theorem C17_withOptions_justify {α : Type} [DecidableEq α] (cx : Ctx α) (ed : Editor α)
+    (width : Int)
+    (o : Options α) :
+    ((ed.withOpts o).justifyOpts cx width o).map Editor.text = (ed.justifyOpts cx width o).map Editor.text :=
+  justifyOpts_text cx ed width o
+
+/-- `XOpts(args, o)` returns the same text as `WithOptions(o).X(args)` (X delegates to XOpts with the Editor's own Options — regenerated fact `C17_delegation`): the Options stored on the receiver play no role, any context, any editor (sub-editors included), errors included -/
+theorem C17_withOptions_align {α : Type} [DecidableEq α] (cx : Ctx α) (ed : Editor α)
+    (align width : Int)
+    (o : Options α) :
+    ((ed.withOpts o).alignOpts cx align width o).map Editor.text = (ed.alignOpts cx align width o).map Editor.text :=
+  alignOpts_text cx ed align width o
+
+/-- `XOpts(args, o)` returns the same text as `WithOptions(o).X(args)` (X delegates to XOpts with the Editor's own Options — regenerated fact `C17_delegation`): the Options stored on the receiver play no role, any context, any editor (sub-editors included), errors included -/
+theorem C17_withOptions_indent {α : Type} [DecidableEq α] (cx : Ctx α) (ed : Editor α)
+    (level : Int)
+    (o : Options α) :
+    ((ed.withOpts o).indentOpts cx level o).map Editor.text = (ed.indentOpts cx level o).map Editor.text :=
+  indentOpts_text cx ed level o
+
+/-- `XOpts(args, o)` returns the same text as `WithOptions(o).X(args)` (X delegates to XOpts with the Editor's own Options — regenerated fact `C17_delegation`): the Options stored on the receiver play no role, any context, any editor (sub-editors included), errors included -/
+theorem C17_withOptions_collapse {α : Type} [DecidableEq α] (cx : Ctx α) (ed : Editor α)
+    (o : Options α) :
+    ((ed.withOpts o).collapseSpaceOpts cx o).map Editor.text = (ed.collapseSpaceOpts cx o).map Editor.text :=
+  collapseSpaceOpts_text cx ed o
+
+/-- `XOpts(args, o)` returns the same text as `WithOptions(o).X(args)` (X delegates to XOpts with the Editor's own Options — regenerated fact `C17_delegation`): the Options stored on the receiver play no role, any context, any editor (sub-editors included), errors included -/
+theorem C17_withOptions_apply {α : Type} [DecidableEq α] (cx : Ctx α) (ed : Editor α)
+    (op : Nat → List α → List (List α))
+    (o : Options α) :
+    ((ed.withOpts o).applyOpts cx op o).map Editor.text = (ed.applyOpts cx op o).map Editor.text :=
+  applyOpts_text cx ed op o
+
+/-- `XOpts(args, o)` returns the same text as `WithOptions(o).X(args)` (X delegates to XOpts with the Editor's own Options — regenerated fact `C17_delegation`): the Options stored on the receiver play no role, any context, any editor (sub-editors included), errors included -/
+theorem C17_withOptions_applyParas {α : Type} [DecidableEq α] (cx : Ctx α) (ed : Editor α)
+    (op : Nat → List α → List α → List α → R (List (List α)))
+    (o : Options α) :
+    ((ed.withOpts o).applyParasM cx op o).map Editor.text = (ed.applyParasM cx op o).map Editor.text :=
+  applyParasM_text cx ed op o
+
+/-- `XOpts(args, o)` returns the same text as `WithOptions(o).X(args)` (X delegates to XOpts with the Editor's own Options — regenerated fact `C17_delegation`): the Options stored on the receiver play no role, any context, any editor (sub-editors included), errors included -/
+theorem C17_withOptions_defTable {α : Type} [DecidableEq α] (cx : Ctx α) (ed : Editor α)
+    (pos : Int)
+    (defs : List (List α × List α))
+    (width : Int)
+    (o : Options α) :
+    ((ed.withOpts o).insertDefTableOpts cx pos defs width o).map Editor.text = (ed.insertDefTableOpts cx pos defs width o).map Editor.text :=
+  insertDefTableOpts_text cx ed pos defs width o
+
+/-- `XOpts(args, o)` returns the same text as `WithOptions(o).X(args)` (X delegates to XOpts with the Editor's own Options — regenerated fact `C17_delegation`): the Options stored on the receiver play no role, any context, any editor (sub-editors included), errors included -/
+theorem C17_withOptions_table {α : Type} [DecidableEq α] (cx : Ctx α) (ed : Editor α)
+    (pos : Int)
+    (data : List (List (List α)))
+    (width : Int)
+    (o : Options α) :
+    ((ed.withOpts o).insertTableOpts cx pos data width o).map Editor.text = (ed.insertTableOpts cx pos data width o).map Editor.text :=
+  insertTableOpts_text cx ed pos data width o
+
+/-- `XOpts(args, o)` returns the same text as `WithOptions(o).X(args)` (X delegates to XOpts with the Editor's own Options — regenerated fact `C17_delegation`): the Options stored on the receiver play no role, any context, any editor (sub-editors included), errors included -/
+theorem C17_withOptions_twoColumns {α : Type} [DecidableEq α] (cx : Ctx α) (ed : Editor α)
+    (pos : Int)
+    (leftText rightText : List α)
+    (minSpaceBetween width : Int)
+    (pct : Pct)
+    (o : Options α) :
+    ((ed.withOpts o).insertTwoColumnsOpts cx pos leftText rightText minSpaceBetween width pct o).map Editor.text = (ed.insertTwoColumnsOpts cx pos leftText rightText minSpaceBetween width pct o).map Editor.text :=
+  insertTwoColumnsOpts_text cx ed pos leftText rightText minSpaceBetween width pct o
+
+/-- the strongest form, shown for the operation that handles options most delicately (JustifyOpts overwrites them, selects lines, commits and restores): replacing the receiver's stored Options changes nothing but the Options stored on the result -/
+theorem C17_receiver_options_irrelevant_justify {α : Type} [DecidableEq α] (cx : Ctx α) (ed : Editor α)
+    (o' : Options α)
+    (width : Int)
+    (o : Options α) :
+    (ed.withOpts o').justifyOpts cx width o =
+      (ed.justifyOpts cx width o).map (fun r => r.withOpts o') :=
+  justifyOpts_withOpts cx ed o' width o
 
 end RosedVerif.Props
